@@ -152,9 +152,14 @@ def read_template(path):
     """template lines; `//@insert FILE` is replaced by the lines of specs/FILE (one contract text shared by two templates)"""
     out = []
     for ln in open(path).read().split('\n'):
-        m = re.match(r'\s*//@insert\s+(\S+)\s*$', ln)
+        m = re.match(r'\s*//@insert\s+(\S+)((?:\s+\w+=\S+)*)\s*$', ln)
         if m:
-            out.extend(read_template(os.path.join(SPECS, m.group(1))))
+            # `//@insert FILE K=V ..`: the lines of specs/FILE with @K@ replaced by V (one contract / proof text for several instantiations)
+            sub = read_template(os.path.join(SPECS, m.group(1)))
+            for kv in m.group(2).split():
+                k, v = kv.split('=', 1)
+                sub = [x.replace('@%s@' % k, v) for x in sub]
+            out.extend(sub)
         else:
             out.append(ln)
     while out and out[-1] == '' and path.endswith('.inc'):
@@ -584,6 +589,15 @@ def weave_fn(src, container, name, nth, opts, subs, mode, sig_only=False):
             raise Undecided('anchor lost: no std adapter call (`.iter().map(`, `(a..b).map(`, `.max()`, `.extend(`) in %s::%s' % (container, name))
         rewrites['R12'] = k
     for kind, arg, lines in subs:
+        if kind == 'call_rename':
+            # R7b: a call of a generic function at a concrete container type is directed to the instantiation of that function at this
+            # type (monomorphization): `//@call_rename bits::read_int bits_mapped::read_int`
+            a_, b_ = arg.split()
+            text, k = re.subn(r'(?<![\w:])' + re.escape(a_) + r'\s*\(', b_ + '(', text)
+            if not k:
+                raise Undecided('anchor lost: no call of %s in %s::%s' % (a_, container, name))
+            rewrites['R7'] = rewrites.get('R7', 0) + k
+    for kind, arg, lines in subs:
         if kind == 'deref_operand':
             text, k = rw_deref_operand(text, arg.strip())
             if not k:
@@ -668,7 +682,7 @@ def weave_fn(src, container, name, nth, opts, subs, mode, sig_only=False):
     # collect sub-directives
     for kind, arg, lines in subs:
         body_text = '\n'.join(lines)
-        if kind in ('inst', 'rename_generic', 'desugar_by_ref', 'desugar_for', 'desugar_for_into', 'desugar_closure_patterns', 'model_adapters', 'deref_operand'):
+        if kind in ('inst', 'rename_generic', 'desugar_by_ref', 'desugar_for', 'desugar_for_into', 'desugar_closure_patterns', 'model_adapters', 'deref_operand', 'call_rename'):
             continue
         if kind == 'attr':
             if not sig_only:
